@@ -42,6 +42,7 @@ def codecs():
         S.TGrid(S.TOneOf(S.TSpaces(0, "a"), S.TMultiDigit(2, 3))), S.TGrid(S.TIntSpaces(-1, 8, 3)),
         S.TTupl(S.TSeq(S.THexInt(), 1), S.TFixStr("/"), S.TGrid(hexdot)), S.TTupl(S.TGrid(S.TMultiDigit(6, 2)), S.TSeq(S.TDict([7, 8], ["_", "A"]), 2)),
         S.TValuedRooms(S.TDecInt()), S.TTupl(S.TRooms(), S.TGrid(hexdot)), S.TGrid(S.TDict([1, 2], ["-", "+f"])),
+        S.TGrid(S.TOneOf(S.TDict([7], ["."]), S.TSpaces(0, "0"))), S.TGrid(S.TOneOf(S.TSpaces(-1, "k"), S.THexInt())),
     ]
     for t in lib:
         out["lib:" + t.name] = (t.build(), "any")
@@ -326,8 +327,118 @@ def run_long(part, cname):
     part.add("long", (cname, L))
 
 
+B36 = "0123456789abcdefghijklmnopqrstuvwxyz"
+RUN_SIDES = [1, 2, 3, 4, 5, 6, 8, 9, 12]
+
+
+def run_runs(part, cname, h, sides):
+    """Sparse boards of many sizes: every text c*k (one base-36 character repeated, k <= 12) and c*k + d under every
+    declared board with sides from `sides`: run-length tokens reach their 1-character limit and board areas land on
+    every multiple of every run length, which the short-string enumeration cannot."""
+    comb, kind = get_codecs()[cname]
+    for w in sides:
+        for c in B36 + ".-":
+            for k in range(1, 13):
+                judge_decode(part, cname, comb, kind, c * k, h, w)
+                if k <= 3:
+                    for d in "0az.":
+                        judge_decode(part, cname, comb, kind, c * k + d, h, w)
+
+
+def mid_problems(cname):
+    """(h, w, problem) on mid-sized non-square boards with distinct values in distinct places."""
+    out = []
+    for h, w in ((2, 4), (4, 2), (3, 6), (6, 3), (2, 5), (4, 7), (5, 3)):
+        cells = [(y, x) for y in range(h) for x in range(w)]
+        if cname in ("nurikabe", "sudoku", "nurimisaki", "slitherlink", "masyu"):
+            blank = {"nurikabe": 0, "sudoku": 0, "nurimisaki": -1, "slitherlink": -1, "masyu": 0}[cname]
+            top = {"nurikabe": 40, "sudoku": 9, "nurimisaki": 20, "slitherlink": 3, "masyu": 2}[cname]
+            for mode in range(3):
+                out.append((h, w, [[(1 + (y * w + x) % top) if (y * w + x + mode) % 3 == 0 else blank for x in range(w)] for y in range(h)]))
+            out.append((h, w, [[blank] * w for _ in range(h)]))
+        elif cname == "yajilin":
+            toks = ["^1", "..", "v0", "<2", "..", "..", ">11", "??", ".."]
+            for mode in range(2):
+                out.append((h, w, [[toks[(y * w + x + mode) % len(toks)] for x in range(w)] for y in range(h)]))
+        elif cname in ("lits", "norinori", "rooms-lenient", "heyawake"):
+            parts = []
+            parts.append([[(y, x) for y in range(h)] for x in range(w)])  # columns
+            parts.append([[(y, x) for x in range(w)] for y in range(h)])  # rows
+            parts.append([[c] for c in cells])  # cells
+            blocks = {}
+            for (y, x) in cells:
+                blocks.setdefault((y // 2, x // 2), []).append((y, x))
+            parts.append(list(blocks.values()))  # 2x2 blocks
+            stair = {}
+            for (y, x) in cells:
+                stair.setdefault(min(x + (y % 2), w - 1) // 2, []).append((y, x))
+            if all(_connected(b) for b in stair.values()):
+                parts.append(list(stair.values()))
+            for rooms in parts:
+                if cname == "heyawake":
+                    out.append((h, w, (rooms, [k % 10 for k in range(len(rooms))])))
+                    out.append((h, w, (list(reversed(rooms)), [(-1 if k % 3 == 0 else k % 7) for k in range(len(rooms))])))
+                    rot = rooms[1:] + rooms[:1]
+                    out.append((h, w, (rot, [len(rooms) - k for k in range(len(rooms))])))
+                else:
+                    out.append((h, w, rooms))
+    return out
+
+
+def _connected(cells):
+    cells = set(cells)
+    seen = set()
+    todo = [next(iter(cells))]
+    while todo:
+        y, x = todo.pop()
+        if (y, x) in seen:
+            continue
+        seen.add((y, x))
+        for q in ((y + 1, x), (y - 1, x), (y, x + 1), (y, x - 1)):
+            if q in cells:
+                todo.append(q)
+    return seen == cells
+
+
+def run_mid(part, cname):
+    """Texts of mid-sized boards: the library's own encoding of structured problems (an arbitrary string like any other;
+    judged by the same oracle), every prefix, and every single-character substitution by 4 characters."""
+    from cspuz import problem_serializer as ps
+
+    comb, kind = get_codecs()[cname]
+    for h, w, prob in mid_problems(cname):
+        try:
+            text = ps.serialize_problem(comb, prob, height=h, width=w)
+        except Exception as e:
+            part.violation("%s:mid-problem-not-serializable-%s" % (cname, type(e).__name__), {"codec": cname, "height": h, "width": w, "text": repr(prob)[:150]}, {"exception": repr(e)[:200]})
+            continue
+        # the decoded problem must also be the one that was encoded (the encoder is part of the round trip the property states)
+        part.count("evaluations")
+        try:
+            back = ps.deserialize_problem(comb, text, height=h, width=w)
+        except Exception as e:
+            back = e
+        if isinstance(back, Exception) or back is None or canon(kind, back) != canon(kind, prob):
+            part.violation("%s:mid-problem-does-not-round-trip" % cname, {"codec": cname, "height": h, "width": w, "text": text}, {"problem": repr(prob)[:200], "decoded": repr(back)[:200]})
+        judge_decode(part, cname, comb, kind, text, h, w)
+        judge_decode(part, cname, comb, kind, text, w, h)
+        for cut in range(len(text)):
+            judge_decode(part, cname, comb, kind, text[:cut], h, w)
+        for pos in range(len(text)):
+            for c in "0g.z":
+                if text[pos] != c:
+                    judge_decode(part, cname, comb, kind, text[:pos] + c + text[pos + 1 :], h, w)
+        part.add("mid", (cname, h, w, text))
+
+
 def worker(shard, part):
     what = shard[0]
+    if what == "runs":
+        run_runs(part, shard[1], shard[2], shard[3])
+        return
+    if what == "mid":
+        run_mid(part, shard[1])
+        return
     if what == "long":
         run_long(part, shard[1])
         return
@@ -364,16 +475,22 @@ def main(tier, seed, only=None):
         shards.append(("scale", n))
     for cname in cs:
         shards.append(("long", cname))
+        shards.append(("mid", cname))
+        sides = RUN_SIDES if tier == "quick" else RUN_SIDES + [7, 10, 11, 16, 18]
+        for a in sides:
+            shards.append(("runs", cname, a, tuple(sides)))
     if only:
         shards = [s for s in shards if s[0] == only or (len(s) > 1 and s[1] == only)]
     run = harness.Run(
         PID, tier, seed, "exploration",
         "alphabet = one representative per character class the decoders distinguish: %r (16 symbols incl. an Arabic-Indic digit and a "
-        "superscript two).  Bodies: for each of %d codecs (9 puzzle codecs, lenient Rooms, 11 library combinator terms) ALL strings of length "
+        "superscript two).  Bodies: for each of %d codecs (9 puzzle codecs, lenient Rooms, 13 library combinator terms) ALL strings of length "
         "<= 3 under every declared (h, w) in {0..3}^2 and ALL strings of length 4 under %s%s.  URL level: 4 schemes x 3 hosts x 4 paths x 8 "
         "dimension spellings x puzzle names (right/alias/wrong) x body classes through the module decoders, deserialize_problem_as_url "
         "(allow_failure off/on) and get_puzzle_info_from_url.  Scale family: one-room and striped n x n boards for n in 10,20,32,40,64; for every puzzle codec a canonical body longer than 256 "
-        "characters (boards 16x16 .. 30x30) cut at 0,1,2,127..129,254..260 and at its end, and extended by garbage.  "
+        "characters (boards 16x16 .. 30x30) cut at 0,1,2,127..129,254..260 and at its end, and extended by garbage.  Runs: every text of one base-36 character (or . -) repeated 1..12 times, "
+        "also followed by one of 0 a z ., under every declared board with sides in {1,2,3,4,5,6,8,9,12} (thorough also 7,10,11,16,18).  Mid-sized boards (2x4 .. 4x7, both orientations): the encodings of structured problems "
+        "(distinct values in distinct places; rooms as rows / columns / cells / blocks / stairs in several list orders), each of their prefixes and all single-character substitutions by 0 g . z.  "
         "Non-trivial = distinct inputs that decoded to a problem (checked for dimensions and stable re-encoding)."
         % ("".join(ALPHABET), len(cs), "(h, w) in {1,2}^2" if tier == "quick" else "every (h, w)", "" if tier == "quick" else " and length 5 under (h, w) in {1,2}^2"),
     )
